@@ -809,6 +809,8 @@ def run_c12(tier, budget, rnd) -> StreamResult:
     # ------------------------------------------------------------------ (A0) stream identity at scale
     env_stream_oracle(res, rnd, quick, budget)
     interpreter_start_oracle(res, rnd)
+    from common import optimized_probe
+    optimized_probe(res, "trajectory", rnd.randrange(10 ** 6), "evaluate:interpreter-flag")
 
     # ------------------------------------------------------------------ (A) the real ModelInstance
     # seed-respecting generators only; continuous ones feed the independence oracle.  (`graph` and the
@@ -844,7 +846,7 @@ def run_c12(tier, budget, rnd) -> StreamResult:
             gen = gen.split(":")[0]
         reps = reps_list[ci % len(reps_list)] if ci >= 2 else (13 if ci == 0 else 9 if quick else 17)
         limit = rnd.choice([2, 3]) if n == 4 else rnd.choice([2, 3, 4])
-        seed = rnd.randrange(1, 10 ** 6)
+        seed = rnd.randrange(1, 10 ** 6) if ci != 1 else 0        # 0 is a seed like any other ("--seed 0")
         cls = ["superadditive", "superadditive_cached"][ci % 2]
         gapname = ["exploitability", "l1_norm", "linf_norm"][ci % 3]
         plist = procs_list if ci < 3 or not quick else [1, 2, 5]
@@ -1303,6 +1305,8 @@ def run_c13(tier, budget, rnd) -> StreamResult:
 
     res = StreamResult("expected-greedy")
     greedy_many_candidates(res, rnd, tier, budget)      # first: it must not depend on what the budget leaves over
+    from common import optimized_probe
+    optimized_probe(res, "solvers", rnd.randrange(10 ** 6), "solver:interpreter-flag")
     script = Script()
     quick = tier == "quick"
     combos = [("superadditive", "exploitability"), ("superadditive_cached", "l1_norm"),
